@@ -389,6 +389,15 @@ class IMAPConnection:
                         response = await self._exec(state.do_command(cmd))
                 except ResponseError as exc:
                     resp = exc.get_response(cmd.tag)
+                    if resp.is_bad:
+                        bad_commands += 1
+                        if self.bad_command_limit \
+                                and bad_commands >= self.bad_command_limit \
+                                and isinstance(resp, CommandResponse):
+                            msg = b'Too many errors, disconnecting.'
+                            resp.add_untagged(ResponseBye(msg))
+                    else:
+                        bad_commands = 0
                     await self.write_response(resp)
                     if resp.is_terminal:
                         break
